@@ -25,6 +25,8 @@ func safeParse(src string) (tree *parser.Tree, o Outcome) {
 			tree = nil
 		}
 	}()
+	runner.LibEnter()
+	defer runner.LibLeave()
 	tree, o.Err = parser.Parse(src)
 	return
 }
@@ -35,6 +37,8 @@ func safeLex(src string) (toks []lexer.Token, o Outcome) {
 			o.Panic = r
 		}
 	}()
+	runner.LibEnter()
+	defer runner.LibLeave()
 	toks, o.Err = lexer.Lex(file.NewSource(src))
 	return
 }
